@@ -88,7 +88,7 @@ def bounded_info():
                   "beyond 20000 energy evaluations (80000 for the large thorough pairs); skipped runs are counted in guard.scope-evaluated-within-energy-budget)"],
         "assumptions": ["Python Monte-Carlo engine (cython_backend not importable; checked at run time, else undecided)",
                         "generic positions: generated atoms are >= 0.06 nm apart, coordinates with three decimals",
-                        "random streams sampled through np.random.seed(k), k in 0..2 (quick) / 0..4 (thorough)",
+                        "random streams sampled through np.random.seed(k), k in 0..2 (quick) / 0..4 (thorough); step budgets STEPS_FACTOR in {3,8,20} ({3,5} for pairs with a side > 8)",
                         "tolerance 1e-9 nm scaled by max(1, distance)"],
         "explanation": (
             "Bounded run-time contract checks (never counted as proved) of the real Alignment with the real optimiser and a small step "
@@ -101,7 +101,12 @@ def bounded_info():
             "only with type 2 disabled and only the all-pairwise clause. Thorough adds the shipped BF4 and BMIM CG/AA pairs both ways "
             "round. Each run evaluates: larger molecule only translated (start) / bit-identical (end), bonded distances of the mobile "
             "molecule (acyclic), all pairwise distances (no single-atom moves), names/order/ids, finiteness, caller objects unmodified; "
-            "one run per option combination is repeated on a fresh Alignment for bit-identical determinism."),
+            "one run per option combination is repeated on a fresh Alignment (fresh Molecule objects read from the same files) for "
+            "bit-identical determinism. Quick: combination k runs seed k mod 3 (+ its repeat), every 4th combination runs seeds 0..2; "
+            "thorough: every combination runs seeds 0..4, three tree instances per size pair. A run whose optimiser exceeds the "
+            "energy-evaluation budget is skipped and counted (flat energy landscapes make rounding noise reset the stop counter; "
+            "termination is not part of C06). Must-fail guards evaluate the clause predicates on an ideal observation built from the "
+            "input (scripted twin of a correct Alignment) with one deliberate corruption each."),
         "rule": ("one evaluation per (molecule pair, restraint list, deformation subset, ignore_hydrogens, seed, hand-over scenario); "
                  "non-trivial = the run really exercised the clause (mobile molecule rotated/deformed, non-zero translation, "
                  "outcomes differing between seeds for determinism, Alignment's own molecules changed for the caller frame)"),
@@ -1050,7 +1055,7 @@ def task_guards(tier, seed):
 
 def bounded_tasks(prop, tier, seed):
     t = []
-    insts = (0,) if tier == "quick" else (0, 1)
+    insts = (0,) if tier == "quick" else (0, 1, 2)
     lim = 300.0 if tier == "quick" else 1200.0     # kill protection only; a tree task takes ~5 s CPU (quick)
     for ns in range(1, 9):
         for lo, hi in ((1, 2), (3, 4), (5, 6), (7, 8)):
